@@ -10,7 +10,7 @@ from ..core import HarnessError, Violation
 
 ID = "C08"
 LEVEL = "exploration"
-RULE = ("exhaustive: 39 representative constrained nodes (every type; value, precision, bounds, lengths, alphabet, regex, list forms, dict forms, any, alias) x the whole zoo (70 objects) x 3 embeddings (alone, typed-list element, dict value); then Hypothesis draws any declarable SchemaSpec (depth<=3, satisfiable or not, float nodes with "
+RULE = ("exhaustive: 40 representative constrained nodes (every type; value, precision, bounds, lengths, alphabet, regex, list forms, dict forms, any, alias) x the whole zoo (70 objects) x 3 embeddings (alone, typed-list element, dict value); then Hypothesis draws any declarable SchemaSpec (depth<=3, satisfiable or not, float nodes with "
         "value+precision included) and a value from the hostile zoo (nan, +-inf, -0.0, ints beyond "
         "2**64 and 10**400, Decimal, Fraction, complex, tuples, sets, bytearray, memoryview, range, "
         "plain subclasses of int/float/str/bytes/list/dict, OrderedDict, defaultdict, UUID v1/3/5/nil, "
@@ -78,6 +78,9 @@ HOT_NODES = [
     {"t": "dict"}, {"t": "dict", "entries": [{"key": "a", "opt": False, "spec": {"t": "int"}},
                                              {"key": "b", "opt": True, "spec": {"t": "str"}}], "relaxed": False},
     {"t": "dict", "entries": [{"key": "a", "opt": False, "spec": {"t": "int"}}], "relaxed": True},
+    {"t": "dict", "entries": [{"key": "{x}", "opt": False, "spec": {"t": "str", "len": ["eq", 2], "order": ["len"]}},
+                              {"key": "%s{0}", "opt": False, "spec": {"t": "list", "form": "untyped", "len": ["max", 1]}}],
+     "relaxed": False},
     {"t": "any"}, {"t": "any", "alts": [{"t": "int"}, {"t": "str", "len": ["eq", 1], "order": ["len"]}]},
     {"t": "alias", "name": "A", "spec": {"t": "float", "value": 2.5, "precision": 1, "order": ["precision"]}},
 ]
@@ -93,6 +96,11 @@ def exhaustive(tier):
             yield {"spec": {"t": "list", "form": "typed", "elem": node}, "value": [z], "how": "typed", "depth": 1}
             yield {"spec": {"t": "dict", "entries": [{"key": "k", "opt": False, "spec": node}], "relaxed": False},
                    "value": {"k": z}, "how": "typed", "depth": 1}
+            if node["t"] == "dict" and node.get("entries"):
+                # the zoo item as the member under every declared key (keys may hold braces, %s, ...)
+                yield {"spec": node, "value": {e["key"]: z for e in node["entries"]}, "how": "typed", "depth": 1}
+            if node["t"] == "list" and node.get("elems"):
+                yield {"spec": node, "value": [z for _ in node["elems"]], "how": "typed", "depth": 1}
 
 
 def _zoo_depths(v, d=0):
